@@ -227,7 +227,7 @@ func (s *Solver) ref(t *Term) string {
 			}
 			return s.defined[x]
 		})
-		n := "t" + strconv.Itoa(s.nextID)
+		n := "%t" + strconv.Itoa(s.nextID)
 		s.nextID++
 		s.sendDecl(fmt.Sprintf("(define-fun %s () %s %s)\n", n, cur.sort.smt(), body))
 		s.defined[cur] = n
@@ -271,7 +271,7 @@ func (s *Solver) proxy(t *Term) string {
 		s.proxies[t] = n
 		return n
 	}
-	p := "p" + strconv.Itoa(len(s.proxies))
+	p := "%p" + strconv.Itoa(len(s.proxies))
 	s.send("(declare-const " + p + " Bool)(assert (=> " + p + " " + n + "))\n")
 	s.proxies[t] = p
 	return p
@@ -345,7 +345,7 @@ func script(terms []*Term, vars []*Term) (string, []string) {
 				}
 				return defined[x]
 			})
-			n := "t" + strconv.Itoa(id)
+			n := "%t" + strconv.Itoa(id)
 			id++
 			sb.WriteString(fmt.Sprintf("(define-fun %s () %s %s)\n", n, cur.sort.smt(), body))
 			defined[cur] = n
@@ -438,21 +438,26 @@ func (s *Solver) Check(extra *Term) SatResult {
 		s.Time += time.Since(start)
 		return r
 	}
-	s.send("(check-sat-assuming (" + s.assumptions(extra) + "))\n")
+	s.send("(check-sat-assuming (" + s.assumptions(extra) + "))\n(echo \"@@\")\n")
 	s.flush()
 	s.Queries++
-	var res SatResult
+	res := Unknown
+	answered := false
+	// read up to the sentinel: an error answer (no sat/unsat follows) must not leave the reader waiting
 	for {
-		line := s.readLine()
+		line := strings.Trim(s.readLine(), "\"")
+		if line == "@@" {
+			break
+		}
 		switch {
 		case line == "sat":
-			res = Sat
+			res, answered = Sat, true
 			s.NSat++
 		case line == "unsat":
-			res = Unsat
+			res, answered = Unsat, true
 			s.NUnsat++
 		case line == "unknown":
-			res = Unknown
+			res, answered = Unknown, true
 			s.NUnknown++
 			s.dumpLog("unknown")
 		case strings.HasPrefix(line, "(error"):
@@ -463,14 +468,16 @@ func (s *Solver) Check(extra *Term) SatResult {
 				s.Time += time.Since(start)
 				return Unknown
 			}
-			continue // the check-sat answer still follows; it is not trusted (see hadError)
 		case line == "" || line == "success":
-			continue
 		default:
 			s.Errors = append(s.Errors, "unexpected solver output: "+line)
-			continue
 		}
-		break
+	}
+	if !answered {
+		s.NUnknown++
+		if len(s.Errors) == 0 {
+			s.Errors = append(s.Errors, "(error \"no answer to check-sat\")")
+		}
 	}
 	if res == Unknown && len(s.Errors) == 0 {
 		if r, _ := s.oneShot(extra, nil); r != Unknown {
@@ -518,32 +525,38 @@ func (s *Solver) CheckWithModel(extra *Term, vars []*Term) (SatResult, []uint64)
 	for i, v := range vars {
 		names[i] = s.ref(v)
 	}
-	s.send("(check-sat-assuming (" + s.assumptions(extra) + "))\n")
+	s.send("(check-sat-assuming (" + s.assumptions(extra) + "))\n(echo \"@@\")\n")
 	s.flush()
 	s.Queries++
 	res := Unknown
+	answered := false
 	for {
-		line := s.readLine()
+		line := strings.Trim(s.readLine(), "\"")
+		if line == "@@" {
+			break
+		}
 		switch {
 		case line == "sat":
-			res = Sat
+			res, answered = Sat, true
 			s.NSat++
 		case line == "unsat":
-			res = Unsat
+			res, answered = Unsat, true
 			s.NUnsat++
 		case line == "unknown":
-			res = Unknown
+			res, answered = Unknown, true
 			s.NUnknown++
 		case strings.HasPrefix(line, "(error"):
 			s.Errors = append(s.Errors, line)
 			if strings.Contains(line, "solver died") {
 				return Unknown, nil
 			}
-			continue
-		default:
-			continue
 		}
-		break
+	}
+	if !answered {
+		s.NUnknown++
+		if len(s.Errors) == 0 {
+			s.Errors = append(s.Errors, "(error \"no answer to check-sat\")")
+		}
 	}
 	var model []uint64
 	if res == Sat && len(vars) > 0 {
